@@ -480,3 +480,60 @@ def drop_sites(body, ty_substr):
             if not pl.get("p") and ty_substr in body.locals[pl["l"]]["ty"] and not body.locals[pl["l"]]["ty"].startswith("&"):
                 out.append((bi, "scope-end", "%s:%d" % (body.file, t["sp"][0])))
     return out
+
+
+def forward_taint(body, seeds, sanitizers=()):
+    """locals that (transitively) receive data from the seed locals: through assignments and as results of calls with a
+    tainted argument. `sanitizers`: callee regexes whose result is not tainted by their arguments."""
+    tainted = set(seeds)
+    san = [re.compile(p) for p in sanitizers]
+    changed = True
+
+    def reads(op):
+        p = op_place(op)
+        return p is not None and (p["l"] in tainted or any(isinstance(e, dict) and e.get("i") in tainted for e in p.get("p", [])))
+
+    def rv_reads(rv):
+        k = rv["k"]
+        if k in ("use", "cast", "repeat"):
+            return reads(rv["op"])
+        if k in ("ref", "rawptr", "discr"):
+            return rv["pl"]["l"] in tainted
+        if k == "bin":
+            return reads(rv["a"]) or reads(rv["b"])
+        if k == "un":
+            return reads(rv["a"])
+        if k == "agg":
+            return any(reads(o) for o in rv["ops"])
+        return False
+
+    while changed:
+        changed = False
+        for bi, blk in enumerate(body.blocks):
+            if blk.get("cleanup"):
+                continue
+            for st in blk["st"]:
+                if st["s"] == "assign" and st["pl"]["l"] not in tainted and rv_reads(st["rv"]):
+                    tainted.add(st["pl"]["l"])
+                    changed = True
+            t = blk["term"]
+            if t and t["t"] == "call" and t.get("dest") is not None and t["dest"]["l"] not in tainted:
+                f = op_const(t["f"])
+                nm = (f or {}).get("res") or (f or {}).get("fn") or ""
+                if any(s.search(nm) for s in san):
+                    continue
+                if any(reads(a) for a in t["args"]):
+                    tainted.add(t["dest"]["l"])
+                    changed = True
+    return tainted
+
+
+def tainted_switches(body, tainted):
+    out = []
+    for bi, blk in enumerate(body.blocks):
+        t = blk["term"]
+        if t and t["t"] == "switch" and bi in body.reachable and not blk.get("cleanup"):
+            p = op_place(t["discr"])
+            if p is not None and p["l"] in tainted:
+                out.append(bi)
+    return out
